@@ -1649,6 +1649,21 @@ def gen_json_tables(repo: Path, notes: list) -> str:
     except (Untranslatable, OSError, SyntaxError) as e:
         notes.append(f"untranslatable {e} (DEFAULT_PRIMITIVE)")
         out.append('def DEFAULT_PRIMITIVE : String := ""   -- untranslatable')
+    # parser.py: class attribute TYPE_KEYWORDS of JsonSchemaParser (type name -> the keywords that reveal it)
+    try:
+        pt = ast.parse((repo / "utype/specs/json_schema/parser.py").read_text())
+        v = find_assign(pt, "TYPE_KEYWORDS", "JsonSchemaParser")
+        if not isinstance(v, ast.Dict) or any(k is None for k in v.keys):
+            raise Untranslatable("utype/specs/json_schema/parser.py JsonSchemaParser.TYPE_KEYWORDS")
+        rows = []
+        for k, val in zip(v.keys, v.values):
+            if not (isinstance(k, ast.Constant) and isinstance(k.value, str)):
+                raise Untranslatable("utype/specs/json_schema/parser.py TYPE_KEYWORDS key")
+            rows.append(f"({json.dumps(k.value)}, {lean_str_list(strs(val))})")
+        out.append("def PARSER_TYPE_KEYWORDS : List (String × List String) := [" + ", ".join(rows) + "]")
+    except (Untranslatable, OSError, SyntaxError) as e:
+        notes.append(f"untranslatable {e} (TYPE_KEYWORDS)")
+        out.append("def PARSER_TYPE_KEYWORDS : List (String × List String) := []   -- untranslatable")
     out += ["", "end Utv.Gen.JsonTables", ""]
     return "\n".join(out)
 
